@@ -141,5 +141,7 @@ func VerifC08_index_per_origin_on_one_attester() {
 	vAssert(vBytesEq(gotA, wantA), "first-origin-gets-its-id")
 	gotB := run(keyB, b2, "_b")
 	vAssert(vBytesEq(gotB, wantB), "second-origin-gets-its-own-id")
+	// an id the caller still holds is not changed by later calls (no shared result buffer)
+	vAssert(vBytesEq(gotA, wantA), "first-id-still-intact-after-second-call")
 	vReach("two-origins")
 }
